@@ -655,6 +655,7 @@ HISTORY = {"labels": ["/".join(str(x) for x in c) for c in _HIST_LABELS], "tol":
            "prelude": r'''import torch, xitorch
 from xitorch.integrate import solve_ivp
 CALLS = %r
+SHARED = {}      # ONE options dict object handed to every call as bck_options (a caller re-using its settings)
 def do(i):
     dtn, method = CALLS[i]
     dt = getattr(torch, dtn)
@@ -662,7 +663,9 @@ def do(i):
     y0 = torch.tensor([1.0, -0.5], dtype=dt, requires_grad=True)
     ts = torch.linspace(0.0, 1.0, 5, dtype=dt)
     opts = {"atol": 1e-12, "rtol": 1e-9} if (method == "rk45" and dtn == "float64") else ({} if method != "rk45" else {"atol": 1e-6, "rtol": 1e-4})
-    yt = solve_ivp(lambda t, y, A: A @ y, ts, y0, params=(A,), method=method, **opts)
+    yt = solve_ivp(lambda t, y, A: A @ y, ts, y0, params=(A,), method=method, bck_options=SHARED, **opts)
     gA, gy = torch.autograd.grad((yt * yt).sum(), (A, y0))
+    if SHARED != {}:
+        raise RuntimeError("the caller's bck_options dict was modified: %%r" %% (SHARED,))
     return torch.cat([gA.reshape(-1), gy.reshape(-1)]).double().tolist()
 ''' % (_HIST_LABELS,)}
